@@ -5,7 +5,7 @@ Input (text only; nothing Scala is ever compiled or run):
                                                      rightMidP, leftMidP, exactMidP, nB, getNumericalMean, getSupport*Bound),
                                                      object LeveneHaldane (apply x2)
   hail/hail/src/is/hail/stats/package.scala          hardyWeinbergTest, chiSquaredTest, contingencyTableTest, fisherExactTest x2
-                                                     (the 7-argument one sliced on `pvalue`), pchisqtail x2 (pinned)
+                                                     (the 7-argument one sliced on `pvalue`), pchisqtail x2, pnorm x2 (pinned)
   hail/hail/utils/src/is/hail/utils/package.scala    D_==, D_>, D_epsilon, defaultTolerance
 Output: lean/HailVerif/Generated/ScalaStats.lean — every translated member TWICE, from the same parsed expression:
   namespace Exact : Double ↦ Rat; every Double literal of magnitude ≤ 1e-6 (the cut-offs / tolerances 1e-16, 0.5e-16, 1e-12,
@@ -28,6 +28,7 @@ from __future__ import annotations
 
 import hashlib
 import os
+import re
 import struct
 from fractions import Fraction
 from typing import Dict, List, Optional, Tuple
@@ -53,6 +54,8 @@ ROOTS = [('LH', m, None) for m in LH_METHODS if m != 'cumulativeProbability'] + 
 # textual pins (compared as ASTs, i.e. modulo whitespace and comments)
 PIN_PCHISQTAIL_4 = 'ChiSquare.cumulative(x, df, lowerTail, logP)'
 PIN_PCHISQTAIL_2 = 'pchisqtail(x, df, lowerTail = false, logP = false)'
+PIN_PNORM_5 = 'Normal.cumulative(x, mu, sigma, lowerTail, logP)'
+PIN_PNORM_1 = 'pnorm(x, mu = 0, sigma = 1, lowerTail = true, logP = false)'
 PIN_SUPPORT = '(low to high).toArray'
 PIN_DHYPER = 'if (logProb) hgd.logProbability(k) else hgd.probability(k)'
 PIN_LOGDC = 'support.map(dhyper(_, logProb = true))'
@@ -743,6 +746,11 @@ class Compiler:
                 if mem is None:
                     self.fail(f'LeveneHaldane.apply/{len(args)}')
                 return self.member_call(mem, args, env)
+            if n == 'pnorm' and len(args) == 1:
+                self.tr.check_pnorm()
+                self.uses_lib = True
+                vs = [self.coerce(self.expr(a, env), 'Dbl') for (_n, a) in args]
+                return self.strict(vs, lambda a: f'(lib.normCdf {a[0]})', 'Dbl')
             if n == 'pchisqtail' and len(args) == 2:
                 self.tr.check_pchisqtail()
                 self.uses_lib = True
@@ -760,6 +768,12 @@ class Compiler:
                 if sel == 'round' and len(vs) == 1:
                     v = self.coerce(vs[0], 'Dbl')
                     return self.strict([v], lambda a: f'({"roundQ" if self.dom.q else "roundF"} {a[0]})', 'Long')
+                if sel == 'sqrt' and len(vs) == 1:
+                    v = self.coerce(vs[0], 'Dbl')
+                    if self.dom.q:
+                        self.uses_lib = True       # no rational square root: a parameter of the exact model
+                        return self.strict([v], lambda a: f'(lib.sqrt {a[0]})', 'Dbl')
+                    return self.strict([v], lambda a: f'(Float.sqrt {a[0]})', 'Dbl')
                 if sel == 'abs' and len(vs) == 1 and vs[0].ty == 'Dbl':
                     return self.strict(vs, lambda a: f'({"absQ" if self.dom.q else "Float.abs"} {a[0]})', 'Dbl')
                 if sel == 'abs' and len(vs) == 1 and vs[0].ty in ('Int', 'Long'):
@@ -892,7 +906,7 @@ class Translator:
         st = Source(os.path.join(repo, STATS_FILE), STATS_FILE)
         lo, hi, _ = st.container('package object', 'stats')
         self.members['stats'] = [Member('stats', d, STATS_FILE) for d in st.members(
-            lo, hi, {'hardyWeinbergTest', 'chiSquaredTest', 'contingencyTableTest', 'fisherExactTest', 'pchisqtail'})]
+            lo, hi, {'hardyWeinbergTest', 'chiSquaredTest', 'contingencyTableTest', 'fisherExactTest', 'pchisqtail', 'pnorm'})]
         ut = Source(os.path.join(repo, UTILS_FILE), UTILS_FILE)
         lo, hi, _ = ut.container('package object', 'utils')
         self.members['utils'] = [Member('utils', d, UTILS_FILE) for d in ut.members(lo, hi, {'D_==', 'D_>', 'D_epsilon', 'defaultTolerance'})]
@@ -905,6 +919,7 @@ class Translator:
                 nm = _SYM.get(m.d.name, m.d.name)
                 m.lean = f'{base}_{nm}' + (f'_{m.arity}' if names[m.d.name] > 1 else '')
         self._pchisq_checked = False
+        self._pnorm_checked = False
 
     def lookup(self, cont, name, arity, nargs=None, named=None) -> Optional[Member]:
         cands = [m for m in self.members.get(cont, []) if m.d.name == name]
@@ -926,6 +941,19 @@ class Translator:
         if len(cands) > 1:
             raise TieBroken(f'ambiguous reference to {cont}.{name}')
         return cands[0] if cands else None
+
+    def check_pnorm(self):
+        if self._pnorm_checked:
+            return
+        m5 = self.lookup('stats', 'pnorm', 5)
+        m1 = self.lookup('stats', 'pnorm', 1)
+        if m5 is None or m1 is None:
+            raise TieBroken('pnorm/5 or pnorm/1 not found')
+        if [p[0] for p in m5.d.params] != ['x', 'mu', 'sigma', 'lowerTail', 'logP'] or _strip(m5.d.body) != _strip(_parse_expr(PIN_PNORM_5)):
+            raise TieBroken(f'pnorm/5 is no longer `{PIN_PNORM_5}` (Lib.normCdf)')
+        if [p[0] for p in m1.d.params] != ['x'] or _strip(m1.d.body) != _strip(_parse_expr(PIN_PNORM_1)):
+            raise TieBroken(f'pnorm/1 is no longer `{PIN_PNORM_1}` (standard normal lower tail: Lib.normCdf)')
+        self._pnorm_checked = True
 
     def check_pchisqtail(self):
         if self._pchisq_checked:
@@ -964,7 +992,8 @@ class Translator:
         slice_note = f'; sliced on `pvalue`, skipped: {", ".join(sorted(c.skipped))}' if c.skipped else ''
         text = (f'/-- `{m.d.name}` — {m.fname}:{m.d.line0}-{m.d.line1} (sha1 of the text {h}){slice_note} -/\n'
                 f'def {m.lean}{" " + binders if binders else ""} : {rty} :=\n  {v.term}\n')
-        info = {'rty': v.ty, 'out': v.out, 'uses_lib': c.uses_lib, 'text': text, 'skipped': c.skipped, 'int_ops': c.int_ops}
+        info = {'rty': v.ty, 'out': v.out, 'uses_lib': c.uses_lib, 'text': text, 'skipped': c.skipped, 'int_ops': c.int_ops,
+                'lib_fields': sorted(set(re.findall(r'lib\.(\w+)', v.term)))}
         m.done[key] = info
         self.order[key].append(m)
         self.in_progress.discard(ident)
@@ -1017,9 +1046,14 @@ class Translator:
         return '\n'.join(out) + '\n'
 
 
+LAST_LIB_USE: Dict[str, List[str]] = {}     # member -> Lib fields its translated body refers to (last translate())
+
+
 def translate(repo: str) -> Tuple[str, List[str]]:
     tr = Translator(repo)
     text = tr.run()
+    LAST_LIB_USE.clear()
+    LAST_LIB_USE.update({m.lean: m.done['Q']['lib_fields'] for m in tr.order['Q']})
     return text, tr.notes
 
 
